@@ -71,7 +71,7 @@ CLAIMS.update({
         "that hands getfspath() to a real-file API refuses archive VFS objects (evaluated against the real class hierarchy, so a "
         "vacuous isinstance test does not count); the inner chain is the ordinary multiplexer on the archive VFS. Equivalence "
         "with the extracted tree is not decided in general; stat() reports constant regular-file/directory modes; the index lookup is evaluated on a representative index (members, "
-        "non-members, prefixes, directories; 4 lookup histories) so that members are found and non-members refused; the index builder makes a directory level only where it is missing (an explicit directory member after its children keeps them).",
+        "non-members, prefixes, directories; 4 lookup histories) so that members are found and non-members refused; the index builder makes a directory level only where it is missing (an explicit directory member after its children keeps them); every answer of the ZIP handler is the inner handler's.",
         "Trusted: zipfile.ZipFile methods act only on the already opened archive.",
     ),
 })
@@ -95,7 +95,7 @@ CLAIMS.update({
         "a try whose handlers cover every exception class a truncated or zero-filled file can raise, and the failure path "
         "regenerates without marking the data as cached (also when the flag had been set before the load); a dbm index is read "
         "completely under the guard and carries an entry count written last and compared on load. Because a pickle's only STOP opcode is its last byte, no proper prefix "
-        "loads successfully, so this structural condition covers every truncation point - provided the writer starts from an empty file, which is checked (mode w/x, dbm flag n; no rewrite in place).",
+        "loads successfully, so this structural condition covers every truncation point - provided the writer starts from an empty file, which is checked (mode w/x, dbm flag n; no rewrite in place) and every hit path of the loader went through the unpickler.",
         "Trusted: CPython pickle framing.",
     ),
     "C12": (
@@ -107,7 +107,7 @@ CLAIMS.update({
         "that can raise FileNotFound or OSError for one entry is caught inside the loop body by a handler that lets the loop go on; "
         "the stat before handler selection is absorbed, no handler test subscripts a missing stat result, and handlers that open "
         "what they serve accept only regular files/directories (path-sensitive accept analysis of canhandlerequest); a loop over "
-        "the entry collection does not change that collection; the isfile()/isdir()/exists() the guards rely on are evaluated for every kind of object (regular file, directory, FIFO, socket, devices, missing).",
+        "the entry collection does not change that collection; the isfile()/isdir()/exists() the guards rely on are evaluated for every kind of object (regular file, directory, FIFO, socket, devices, missing); handler selection fails with FileNotFound and nothing else.",
         "Trusted: the may-raise model (handler multiplexer raises FileNotFound; stat/open/listdir raise OSError; exists/isdir/isfile do not).",
     ),
     "C13": (
@@ -236,7 +236,7 @@ CLAIMS.update({
         "gets a symbol; pushed and restored state tuples agree field by field and contain every register nested code can change; "
         "every handler path moves the program counter; every pass of a repeat starts from the element's initial state; local "
         "variables are looked up innermost scope first. "
-        "TALES expression semantics are decided on 62 representative expressions (alternation, exists/nocall/not/string, nothing/default, sub-paths) by evaluating Context.evaluate over a small constant context; that every expansion equals the specification is not decided.",
+        "TALES expression semantics are decided on 62 representative expressions (alternation, exists/nocall/not/string, nothing/default, sub-paths) by evaluating Context.evaluate over a small constant context, and the content / condition / attributes / omit-tag commands on representative values (nothing, default, 0, empty and non-empty values) by evaluating their handlers; that every expansion equals the specification is not decided.",
         "Trusted: the list of TAL 1.4 operation priorities.",
     ),
     "C18": (
